@@ -13,12 +13,12 @@ ASSUMPTIONS = ["message level (see C17); the running transaction's opening DM14 
 
 
 def correspondence(ctx):
-    return corr14.run(ctx, 40 if ctx.quick else 2000, 140 if ctx.quick else 6000, 19)
+    return corr14.run(ctx, ctx.n(40, 2000), ctx.n(140, 6000), 19)
 
 
 def oracle(ctx, full):
     rng = random.Random(ctx.seed * 7907 + 19)
-    n = 12 if (ctx.quick and not full) else 400
+    n = ctx.n(12, 400, full)
     findings, evals, distinct, samples = [], 0, set(), []
     stat = dict(points=0, own_address=0, several=0)
     for _ in range(n):
